@@ -599,3 +599,87 @@ def dewalrus(text: str) -> str:
             return ast.Name(id=node.target.id, ctx=ast.Load())
 
     return ast.unparse(ast.fix_missing_locations(T().visit(e)))
+
+
+def alpha_text(frag) -> str:
+    """Source text of a statement / expression / list of statements with every name that is *bound inside the fragment*
+    (assignment, loop, comprehension, with/except/walrus targets) renamed `_a0, _a1, ...` in order of first occurrence:
+    two fragments that differ only in the spelling of their own local names have the same alpha_text.  Names bound
+    elsewhere (parameters, self, outer locals, globals) keep their spelling."""
+    import copy
+
+    nodes = list(frag) if isinstance(frag, (list, tuple)) else [frag]
+    nodes = [copy.deepcopy(n) for n in nodes]
+    order: list[str] = []
+
+    class Collect(ast.NodeVisitor):
+        def visit_Name(self, n: ast.Name):
+            if isinstance(n.ctx, (ast.Store, ast.Del)) and n.id not in order:
+                order.append(n.id)
+
+        def visit_ExceptHandler(self, n: ast.ExceptHandler):
+            if n.name and n.name not in order:
+                order.append(n.name)
+            self.generic_visit(n)
+
+        def visit_MatchAs(self, n: ast.MatchAs):
+            if n.name and n.name not in order:
+                order.append(n.name)
+            self.generic_visit(n)
+
+    # source order: ast.walk is breadth-first, NodeVisitor.generic_visit is depth-first in field order; for
+    # comprehensions the generators come after the element in field order, so visit them first
+    class Ordered(Collect):
+        def _comp(self, n):
+            for g in n.generators:
+                self.visit(g)
+            for fld in ("elt", "key", "value"):
+                if hasattr(n, fld):
+                    self.visit(getattr(n, fld))
+
+        visit_ListComp = visit_SetComp = visit_GeneratorExp = visit_DictComp = _comp
+
+        def visit_Assign(self, n: ast.Assign):
+            self.visit(n.value)
+            for t in n.targets:
+                self.visit(t)
+
+        def visit_NamedExpr(self, n: ast.NamedExpr):
+            self.visit(n.value)
+            self.visit(n.target)
+
+    for n in nodes:
+        Ordered().visit(n)
+    ren = {nm: f"_a{i}" for i, nm in enumerate(order)}
+
+    class R(ast.NodeTransformer):
+        def visit_Name(self, n: ast.Name):
+            if n.id in ren:
+                n.id = ren[n.id]
+            return n
+
+        def visit_ExceptHandler(self, n: ast.ExceptHandler):
+            if n.name in ren:
+                n.name = ren[n.name]
+            self.generic_visit(n)
+            return n
+
+        def visit_MatchAs(self, n: ast.MatchAs):
+            if n.name in ren:
+                n.name = ren[n.name]
+            self.generic_visit(n)
+            return n
+
+    return "\n".join(ast.unparse(ast.fix_missing_locations(R().visit(n))) for n in nodes)
+
+
+def alpha_same(frag, expected_src: str) -> bool:
+    """frag (node or list of statements) equals the statements / expression written in `expected_src` up to the spelling
+    of the names bound inside it"""
+    try:
+        exp = ast.parse(expected_src).body
+    except SyntaxError:
+        return False
+    if not isinstance(frag, (list, tuple)) and isinstance(frag, ast.expr) and len(exp) == 1 and isinstance(exp[0], ast.Expr):
+        exp = [exp[0].value]
+    return alpha_text(frag) == alpha_text(exp)
